@@ -17,3 +17,63 @@ package types
 //@ func (x *XObject) Truthy
 //@   trusted
 //@   pure
+
+// ---- C04 (no-panic sweep): the conversion functions hand back a usable value whenever they report no error, and a usable
+// zero value of the type together with the error otherwise. Assumed (trusted) contracts: the bodies are type switches over
+// values whose nil-ness is decided by reflection (types.IsNil), which the generator does not model.
+//@ func ToXNumber
+//@   trusted
+//@   assigns computed
+//@   ensures result0 != nil
+//@ func ToXText
+//@   trusted
+//@   assigns computed
+//@   ensures result0 != nil
+//@ func ToXBoolean
+//@   trusted
+//@   assigns computed
+//@   ensures result0 != nil
+//@ func ToXDateTime
+//@   trusted
+//@   assigns computed
+//@   ensures result1 == nil ==> result0 != nil
+//@ func ToXDateTimeWithTimeFill
+//@   trusted
+//@   assigns computed
+//@   ensures result1 == nil ==> result0 != nil
+//@ func ToXDate
+//@   trusted
+//@   assigns computed
+//@   ensures result1 == nil ==> result0 != nil
+//@ func ToXTime
+//@   trusted
+//@   assigns computed
+//@   ensures result1 == nil ==> result0 != nil
+//@ func ToXArray
+//@   trusted
+//@   assigns computed
+//@   ensures result1 == nil ==> result0 != nil
+//@ func ToXObject
+//@   trusted
+//@   assigns computed
+//@   ensures result1 == nil ==> result0 != nil
+//@ func ToXFunction
+//@   trusted
+//@   assigns computed
+//@   ensures result1 == nil ==> result0 != nil
+//@ func ToXJSON
+//@   trusted
+//@   assigns computed
+//@   ensures result1 == nil ==> result0 != nil
+//@ func NewXNumber
+//@   trusted
+//@   assigns nothing
+//@   ensures result != nil
+//@ func NewXText
+//@   trusted
+//@   assigns nothing
+//@   ensures result != nil
+//@ func NewXErrorf
+//@   trusted
+//@   assigns nothing
+//@   ensures result != nil
